@@ -1,6 +1,7 @@
     requires
         estate.next_counterparty_revoke_num <= COMMIT_LIMIT, estate.next_counterparty_commit_num <= COMMIT_LIMIT,
         commit_num <= COMMIT_LIMIT,
+        height_sane(*cstate), htlc_lens_sane(*info2),
     ensures
         // C03: commitment n is signed only when everything below n-1 is revoked
         r.is_ok() && vx_strict(T_policy_commitment_previous_revoked) ==>
